@@ -337,6 +337,17 @@ def robust_docs():
             out.append(('%s:donedata-content:%d' % (dm, i), doc('<state id="s0" initial="a"><state id="a"><transition target="f"/></state><final id="f"><donedata><content expr="%s"/></donedata></final><transition event="done.state.s0" target="ok"/></state>' % ce)))
             out.append(('%s:donedata-param:%d' % (dm, i), doc('<state id="s0" initial="a"><state id="a"><transition target="f"/></state><final id="f"><donedata><param name="p" expr="%s"/></donedata></final><transition event="done.state.s0" target="ok"/></state>' % ce)))
             out.append(('%s:invoke-param:%d' % (dm, i), doc('<state id="s0"><invoke type="scxml" id="ri"><param name="p" expr="%s"/><content><scxml xmlns="%s" version="1.0" datamodel="null"><final id="c"/></scxml></content></invoke><transition event="e1" target="ok"/></state>' % (ce, NS))))
+    # data initialisation that fails (property: "... in data initialisation"): unreachable src, failing expr, inline text that is no value;
+    # at the top (early binding), in a state entered later (late binding) and inside an invoked document
+    for dm in ('lua', 'promela', 'null'):
+        dattr = ' datamodel="%s"' % dm if dm != 'null' else ''
+        faults = ['<data id="dx" src="file:///nonexistent/uscxml-verif/none.json"/>', '<data id="dx" src="nosuchscheme://x/y"/>']
+        if dm == 'lua': faults += ['<data id="dx" expr="nofn()"/>', '<data id="dx" expr="1 +* 2"/>', '<data id="dx">{ not lua at all ]]</data>']
+        if dm == 'promela': faults += ['<data id="dx" type="int" expr="nodecl + 1"/>', '<data id="dx" type="int" expr="7 / 0"/>', '<data id="dx" type="int[2]">[1,2,3,4,</data>']
+        for i, f in enumerate(faults):
+            for binding in ('early', 'late'):
+                out.append(('%s:data-root-%s:%d' % (dm, binding, i), '<scxml xmlns="%s" version="1.0"%s binding="%s" initial="s0"><datamodel>%s</datamodel><state id="s0"><transition event="e1" target="ok"/></state><state id="ok"/></scxml>' % (NS, dattr, binding, f)))
+                out.append(('%s:data-state-%s:%d' % (dm, binding, i), '<scxml xmlns="%s" version="1.0"%s binding="%s" initial="s0"><state id="s0"><transition event="e1" target="ok"/></state><state id="ok"><datamodel>%s</datamodel></state></scxml>' % (NS, dattr, binding, f)))
     return out
 
 
